@@ -204,7 +204,7 @@ def _replay_dict(o):
     r = {'case': {'seed': o['seed'], 'opts': dict(o.get('opts') or {})}, 'arch': o.get('arch')}
     if 'spec' in (o.get('opts_full') or {}):
         r['case']['opts']['spec'] = o['opts_full']['spec']
-    for k in ('names', 'single', 'full_cost', 'style', 'exclude', 'open', 'pruned', 'respec', 'rewrap', 'rewrap_exc', 'dw_pruned', 'orig_plain', 'exp_plain', 'exp_plain_generic', 'degenerate', 'exp_numel', 'reimport', 'trace'):
+    for k in ('names', 'single', 'full_cost', 'style', 'exclude', 'open', 'pruned', 'respec', 'rewrap', 'rewrap_exc', 'dw_pruned', 'switches', 'orig_plain', 'exp_plain', 'exp_plain_generic', 'degenerate', 'exp_numel', 'reimport', 'trace'):
         if k in o:
             r[k] = o[k]
     r['layers'] = [{k: L.get(k) for k in ('name', 'kind', 'cin', 'cout', 'groups', 'ks', 'search', 'summary', 'sites')} for L in o.get('layers', [])]
@@ -218,7 +218,7 @@ def run(ctx):
     ctx.rule = ('grammar architectures (gen_arch productions + `layer invoked twice` with equal / different output sizes at the two call sites; 1-D causal and 2-D) under PIT; '
                 'cost = one of / a dictionary of params, params_no_bias, ops, ops_no_bias, gap8_latency (2-D); full_cost and discrete_cost-at-construction random; optionally the stem '
                 'excluded by name; channel masks adversarial / dyadic / minimal / one-dead on every trainable alpha (shared maskers once), a binarized (receptive field, dilation) pattern per '
-                'searchable Conv1d; non-trivial = at least one layer pruned; distinct = (architecture, options, style); plus masker-level continuous k_eff cases')
+                'searchable Conv1d; after the masks are set one random trainability switch (nothing / train_net_only / train_nas_only / train_net_and_nas / train_features, train_rf, train_dilation off / all on again) before EVERY cost observation, re-specification, re-wrap and export; non-trivial = at least one layer pruned; distinct = (architecture, options, style); plus masker-level continuous k_eff cases')
     # ---- (a) masker level: continuous effective kernel size
     Kmax = 12 if ctx.quick else 64
     kcases = [{'K': K, 'd0': 1, 'beta': [1.0] * K, 'gamma': [1.0] * pm.glen(K), 'alpha': [1.0, 1.0], 'style': 'open'} for K in range(1, Kmax + 1)]
@@ -267,6 +267,11 @@ def run(ctx):
                 ctx.dist['layer-invoked-twice:different-output-sizes'] += 1
         if degenerate_layers(o):
             ctx.dist['full-conv-exported-1to1'] += 1
+        for sw in o.get('switches', []):
+            ctx.dist['switch:' + sw.split(':', 1)[1]] += 1
+        if any(L['kind'] == 'conv1d' and L.get('summary') and L['summary']['kernel_size'] != L['ks'] for L in o.get('layers', [])) and \
+                any(x.split(':', 1)[1] in ('train_net_only', 'train_rf=train_dilation=False') for x in o.get('switches', [])[:1]):
+            ctx.dist['conv1d-kernel-pruned-then-time-masks-untrainable-before-cost'] += 1
         if o.get('dw_pruned'):
             ctx.dist['depthwise-layer-with-pruned-channels:%dd' % o['dim']] += 1
         if 'rewrap' in o:
@@ -422,7 +427,7 @@ def replay(r):
         o = ci.net_case(torch, c['seed'], c.get('opts'))
         res = oracle(o)
         print('architecture:', o['arch'])
-        for k in ('names', 'full_cost', 'exclude', 'style'):
+        for k in ('names', 'full_cost', 'exclude', 'style', 'switches'):
             print(' ', k, '=', o.get(k))
         print('  before pruning   continuous', o.get('open', {}).get('cont'), '\n                   discrete  ', o.get('open', {}).get('disc'), '\n                   original  ', o.get('orig_plain'))
         print('  after pruning, cost specification re-assigned: same', o.get('respec', {}).get('same', {}).get('disc'), '\n                   switched', o.get('respec', {}).get('switched', {}).get('disc'), '\n                   back', o.get('respec', {}).get('back', {}).get('disc'), '\n                   wrapper built on the pruned layers', o.get('rewrap', {}).get('disc'), o.get('rewrap_exc', ''))
